@@ -172,19 +172,25 @@ func independentCsv(rows []*csvRow, perm []int, extra int) []byte {
 	}
 	var buf bytes.Buffer
 	w := csv.NewWriter(&buf)
-	line := func(get func(i int) string, ex string) {
+	// extra columns stand before some of the real ones and one after all of them; their names
+	// differ from every real header, some of them only in case or surrounding blanks
+	exNames := []string{"extra column", "NAME", "I64", " tail,col", "flag", "F 64", "YDM"}
+	line := func(get func(i int) string, ex func(k int) string) {
 		var rec []string
 		for k, i := range perm {
 			if k < extra {
-				rec = append(rec, ex)
+				rec = append(rec, ex(k))
 			}
 			rec = append(rec, get(i))
 		}
+		if extra > 0 {
+			rec = append(rec, ex(extra))
+		}
 		w.Write(rec)
 	}
-	line(func(i int) string { return heads[i] }, "extra column")
+	line(func(i int) string { return heads[i] }, func(k int) string { return exNames[(k+len(rows))%len(exNames)] })
 	for _, r := range rows {
-		line(func(i int) string { return cell(r, i) }, "x,y")
+		line(func(i int) string { return cell(r, i) }, func(int) string { return "x,y" })
 	}
 	w.Flush()
 	return buf.Bytes()
@@ -221,6 +227,9 @@ func (c11) Gen(rng *rand.Rand, tier string, k int) *Case {
 	}
 	c.Ops = append(c.Ops, OpSpec{Op: "permuted", N: rng.Intn(5), Seed: rng.Int63n(1 << 30), From: rng.Intn(4)})
 	c.Ops = append(c.Ops, OpSpec{Op: "json", N: rng.Intn(6), Seed: rng.Int63n(1 << 30), From: rng.Intn(7)}) // From: element type
+	if rng.Intn(16) == 0 {
+		c.Ops[len(c.Ops)-1].N = 100 + rng.Intn(500) // a document of several buffers' length
+	}
 	switch rng.Intn(4) {
 	case 0:
 		c.Frag = nil
